@@ -314,7 +314,7 @@ pub fn run(tier: &str, rec: &Recorder) -> RunOutput {
     let start = Instant::now();
     let mut out = RunOutput::new("model_checking");
     let cap = wall_cap_s(tier);
-    let stages: Vec<(&'static str, usize, bool)> = if tier == "quick" { vec![("w2", 5, true), ("w3s", 3, true), ("nan2", 5, false), ("w2@alias", 4, true)] } else { vec![("w2", 6, true), ("w3", 4, true), ("w3s", 5, true), ("nan3", 5, false), ("w2@alias", 6, true), ("nan3@alias", 4, false)] };
+    let stages: Vec<(&'static str, usize, bool)> = if tier == "quick" { vec![("w2", 5, true), ("w3s", 3, true), ("nan2", 5, false), ("w2@alias", 4, true), ("w2b", 3, true)] } else { vec![("w2", 6, true), ("w3", 4, true), ("w3s", 5, true), ("nan3", 5, false), ("w2@alias", 6, true), ("nan3@alias", 4, false), ("w2b", 4, true)] };
     let n_st = stages.len() as f64;
     let mut notes = vec![];
     let mut ex = true;
@@ -322,7 +322,7 @@ pub fn run(tier: &str, rec: &Recorder) -> RunOutput {
         let p = E1Params {
             alphabet: alpha,
             depth,
-            batch_depth: 0,
+            batch_depth: if alpha.ends_with("2b") { 2 } else { 0 },
             specs: all_specs_costly_first(),
             max_states_per_spec: 60_000_000,
             deadline: start + Duration::from_secs_f64(cap * (notes.len() as f64 + 1.0) / n_st),
